@@ -45,3 +45,16 @@ for M in (1, 2, 3, 4, 5, 6, 7, 8, 10, 12):
     QP('str.M%d' % M, 'harness/parse_str.c', props=('C01', 'C02', 'C03', 'C08', 'C10'), defs=['-DM=%d' % M], unwind=M + 2, tiers=tiers, cost=M * 2, functions=STRFN)
 QP('str.u1', 'harness/parse_str.c', props=('C01', 'C02', 'C03'), defs=['-DM=8', '-DTEMPLATE=1'], unwind=10, cost=5, functions=STRFN)
 QP('str.u2', 'harness/parse_str.c', props=('C01', 'C02', 'C03'), defs=['-DM=14', '-DTEMPLATE=2'], unwind=16, cost=8, functions=STRFN)
+
+RC_PV = [('__CPROVER_file_local_cJSON_c_parse_value', 'vf_stub_parse_value')]
+RC_PS = [('__CPROVER_file_local_cJSON_c_parse_string', 'vf_stub_parse_string')]
+for M in (2, 3, 4, 5, 6, 7):
+    tiers = ('quick', 'thorough') if M <= 5 else ('thorough',)
+    QP('arr.M%d' % M, 'harness/parse_arr.c', props=('C01', 'C02', 'C03', 'C08', 'C10'), defs=['-DM=%d' % M], unwind=M + 3, tiers=tiers, cost=M * 3,
+       stub=['parse_value'], functions=['parse_array', 'buffer_skip_whitespace', 'cJSON_New_Item', 'cJSON_Delete'],
+       unwindset=['cJSON_Delete.0:%d' % (M + 2), 'cJSON_Delete:2'])
+for M in (2, 3, 4, 5, 6, 7, 8):
+    tiers = ('quick', 'thorough') if M <= 6 else ('thorough',)
+    QP('obj.M%d' % M, 'harness/parse_obj.c', props=('C01', 'C02', 'C03', 'C08', 'C10'), defs=['-DM=%d' % M], unwind=M + 3, tiers=tiers, cost=M * 4,
+       stub=['parse_value', 'parse_string'], functions=['parse_object', 'buffer_skip_whitespace', 'cJSON_New_Item', 'cJSON_Delete'],
+       unwindset=['cJSON_Delete.0:%d' % (M + 2), 'cJSON_Delete:2'])
